@@ -517,16 +517,19 @@ def run_partition(part, tier, seed):
             if ncpu[0] >= 3:
                 raise StopIteration
         elif over:
+            ncpu[0] += 0.34
             acc.violation("%s/budget_exceeded" % name.split("/")[0],
                           "%s: decoding %d bytes (%s%s) used more than %d source lines: does not terminate in proportional work"
                           % (name, len(buf), buf[:32].hex(), "..." if len(buf) > 32 else "", budget), [name, buf.hex()])
+            if ncpu[0] >= 3:
+                raise StopIteration
         if len(acc.samples) < 4 and nontrivial and (h & 0x3FF) == (seed & 0x3FF):
             acc.samples.append((h & 0xFFFFFFFF, [name, buf[:64].hex(), "lines=%d" % lines]))
 
     try:
         _explore(name, chunk, nchunks, span, do)
     except StopIteration:
-        acc.caps.append("%s: stopped after 3 decodes that exceeded the CPU limit (each is reported)" % name)
+        acc.caps.append("%s: stopped after 3 decodes that exceeded the CPU limit / 9 that exceeded the line budget (each is reported)" % name)
     acc.extra["max_lines_within_budget"] = ["%s:%d" % (name, maxlines)]
     if not acc.samples:
         acc.samples.append((0, [name, "(see rule)"]))
